@@ -16,7 +16,7 @@ import subprocess
 import sys
 import tempfile
 
-from vlib.engine import CaseViolation, Inconclusive, repo_root
+from vlib.engine import CaseViolation, Inconclusive, repo_root, child_python
 from vlib.util import check
 
 PROP = 'C17'
@@ -38,7 +38,7 @@ RULE = ('cases: (a) agent collectors: seeded runs of 30 timesteps with a populat
         'records held in between and an empty collection (b); distinct by the run signature.')
 ASSUMPTIONS = ['file clause checked for the default clear_records_on_write=True and filemode "a" (the property\'s wording)',
                'per-agent / composite functions are pure', 'os._exit after step t stands for a crash between timesteps']
-FLOORS = {'quick': {'collections_interrupted': 138, 'collection_passes_failing_half_way': 168, 'nested_models_run_inside_a_collection': 427, 'environment_installed_after_collector': 70, 'agent_steps': 10000, 'records_compared': 5000, 'empty_records_skipped': 470, 'unscheduled_steps': 2000,
+FLOORS = {'quick': {'file_collector_runs_with_a_raising_log_handler': 40, 'runs_continued_on_a_deep_copy_of_the_model': 37, 'collections_interrupted': 138, 'collection_passes_failing_half_way': 168, 'nested_models_run_inside_a_collection': 427, 'environment_installed_after_collector': 70, 'agent_steps': 10000, 'records_compared': 5000, 'empty_records_skipped': 470, 'unscheduled_steps': 2000,
                     'mid_step_population_changes': 2000, 'composite_none': 1000, 'composite_dict': 1000, 'shared_composite_dict_calls': 1000, 'history_unchanged_checks': 8000,
                     'file_steps': 4900, 'flushes': 1500, 'conservation_checks': 4900, 'empty_collections': 712, 'opens_observed': 1500,
                     'killed_children': 14, 'default_priority_runs': 200, 'big_many_systems_runs': 4, 'big_flush_batches': 4, 'collectors_attached_late': 100, 'late_collector_twin_runs': 100,
@@ -224,7 +224,17 @@ def case_agent(ctx, case):
     pop = {}                  # reference population: id -> value, insertion ordered
     history = []              # deep copies of records as first seen
     flags = set()
+    copy_at = rng.randrange(2, steps) if rng.random() < 0.2 else None
     for t in range(steps):
+        if t == copy_at and (t > register_at or register_at == 0):
+            # the run continues on a deep copy of the whole model (a duplicated / restored set-up): its collector records ITS agents
+            import copy as _copy
+            cid = c.id
+            model = _copy.deepcopy(model)
+            env = model.environment
+            c = model.systems.systems[cid]
+            history = [copy.deepcopy(r) for r in c.records]
+            ctx.count('runs_continued_on_a_deep_copy_of_the_model')
         if t == register_at and t:
             model.systems.add_system(c)
             if default_prio:
@@ -405,6 +415,25 @@ def case_file(ctx, case):
     OPENS[path] = 0
     try:
         model = core.Model()
+        handler_raises = rng.random() < 0.25
+        if handler_raises:
+            # the application's logging configuration is faulty: a handler on the model's logger raises for every record it is handed.
+            # Whatever the library logs (or not), nothing collected is lost or written twice
+            import logging
+
+            class HandlerBoom(Exception):
+                pass
+
+            class Raising(logging.Handler):
+                def emit(self, record):
+                    raise HandlerBoom(record.getMessage())
+            lg = logging.getLogger(f'verif.raising.{case["i"]}')
+            lg.setLevel(logging.DEBUG)
+            lg.propagate = False
+            lg.handlers[:] = [Raising()]
+            model = core.Model(logger=lg)
+            ctx.count('file_collector_runs_with_a_raising_log_handler')
+        cadence_known = True
         start, end, freq = cfg['window']
         kw = dict(frequency=freq, start=start, end=end, write_count=cfg['write_count'], plan=cfg['plan'])
         if rng.random() < 0.5:
@@ -433,8 +462,23 @@ def case_file(ctx, case):
                     raise CaseViolation('after an interrupted collection: file text + records held != everything collected so far, or the file no '
                                         'longer holds exactly the whole flushes made so far (data written twice / out of cadence)',
                                         file_tail=text_[-120:], held=fc.records[-6:], error=type(err).__name__, cfg=cfg, timestep=t)
-            model.execute()
+            if handler_raises:
+                try:
+                    model.execute()
+                except HandlerBoom:
+                    cadence_known = False          # the library logged and the handler blew up: only conservation is demanded from here on
+                    ctx.count('log_handler_failures_during_a_step')
+                    if model.systems.timestep == t:
+                        model.systems.timestep = t + 1
+            else:
+                model.execute()
             ctx.count('file_steps')
+            if not cadence_known:
+                text = open(path).read() if os.path.exists(path) else ''
+                if text + ''.join(fc.records) != ''.join(fc.everything):
+                    raise CaseViolation('after a log handler raised inside a step: file text + records held != everything collected so far '
+                                        '(lost or duplicated data)', file_tail=text[-120:], held=fc.records[-6:], cfg=cfg, timestep=t)
+                continue
             if scheduled:
                 collections += 1
                 if cfg['plan'][(collections - 1) % len(cfg['plan'])] == 0:
@@ -489,7 +533,7 @@ def case_kill(ctx, case):
             env = dict(os.environ, VERIF_REPO=repo_root(), PYTHONHASHSEED='0', PYTHONDONTWRITEBYTECODE='1')
             arg = json.dumps(dict(cfg, path=path, stop=stop))
             try:
-                r = subprocess.run([sys.executable, '-B', os.path.join(here, 'vlib', 'fixtures', 'filecollector_child.py'), arg],
+                r = subprocess.run(child_python() + [os.path.join(here, 'vlib', 'fixtures', 'filecollector_child.py'), arg],
                                    capture_output=True, text=True, timeout=120, env=env, cwd=here)
             except subprocess.TimeoutExpired:
                 raise Inconclusive('killed-child run timed out')
